@@ -26,6 +26,14 @@ CHECKS["C19"] = dict(
          "the filtered ALL-level capture under all seven thresholds.",
     design="4/C19", technique="Coq proof over a guard regenerated from the C source + differential correspondence with the log callback")
 
+CHECKS["C20"] = dict(
+    text="Machine-checked proof (Coq), for an ARBITRARY file-system predicate, that resolution returns the first existing file of a "
+         "candidate list whose order (including file's directory, name as given, search-path directories in listed order) is "
+         "regenerated from resolveSubtable/_lou_getTablePath on every run; not-found fails; the result depends only on the files "
+         "at the candidate locations. Tied to the code by an exhaustive enumeration of real directory arrangements "
+         "(presence patterns x name forms x include/list) comparing _lou_resolveTable and the active marker rule with the extracted model.",
+    design="4/C20", technique="Coq proof over candidate programs regenerated from the C source + exhaustive differential run on real directory trees")
+
 PENDING = {}
 
 
